@@ -16,12 +16,15 @@
   LinProofs.lean (T2), LinMain.lean (T3).
 
   PROVED here, for ALL programs:  T1 (`filterBySet`, `freshen`), T2 (`freeVars` sound, in the
-  form needed by T3), T3 = parts (a) and (b) of the property (`C05_linearize_LinTyped`).
-  STATED only (`def … : Prop`): T4 (named ≈ positional semantics through `linearize`) and
-  T5 (progress of the positional machine on `LinTyped` programs); they are validated by the
-  differential runs of the check (named machine on S4 vs positional machine on S5).
+  form needed by T3), T3 = parts (a) and (b) of the property (`C05_linearize_LinTyped`),
+  T4 = part (c): the named machine on `p` and the positional machine on `linearize p` have the same
+  behaviour (`C05_T4`; via the declarative relation `LinRel`, Scc/AxCut/LinRel*.lean),
+  T5 (type safety of the positional machine on `LinTyped` programs, `C05_T5`).
 -/
 import Scc.AxCut.LinMain
+import Scc.AxCut.PosSafe
+import Scc.AxCut.LinRelSim
+import Scc.AxCut.LinRelLin
 import Scc.AxCut.SemPos
 import Scc.AxCut.SemNamed
 
@@ -46,6 +49,11 @@ theorem C05_T1_filterBySet_ids (Γ : Ctx) (S : List Nat) (i : Nat) :
 /-- every kept binding is a binding of Γ: it keeps its name, kind and type -/
 theorem C05_T1_filterBySet_keeps (Γ : Ctx) (S : List Nat) (b : Binding) :
     b ∈ filterBySet Γ S ↔ b ∈ Γ ∧ b.var.id ∈ S := mem_filterBySet
+
+/-- "preserves positions": a kept binding whose position still exists in the result does not move -/
+theorem C05_T1_filterBySet_positions (Γ : Ctx) (S : List Nat) (j : Nat) (b : Binding)
+    (hj : Γ[j]? = some b) (hb : b.var.id ∈ S) (hlt : j < (filterBySet Γ S).length) :
+    (filterBySet Γ S)[j]? = some b := filterBySet_positions Γ S j b hj hb hlt
 
 /-- fuel sufficiency of the inner loop: `new.length` iterations are enough -/
 theorem C05_T1_filterWhile_fuel (S : List Nat) (pos k : Nat) (new : List Binding) :
@@ -99,53 +107,66 @@ theorem C05_linTypedCheck_sound (p : Prog) (h : linTypedCheck p = .ok ()) : LinT
 
 /-! ## T4 / T5: semantics (stated) -/
 
-/-- outcomes the property speaks about -/
-def finishedNamed : Named.Res → Prop
-  | .done _ => True
-  | .stuck why => why = "divByZero" ∨ why = "overflow"
-  | .outOfFuel => False
-
-def finishedPos : Pos.Result → Prop
-  | .done _ => True
-  | .stuck why => why = .divByZero ∨ why = .overflow
-  | .outOfFuel => False
-
-def sameOutcome : Named.Res → Pos.Result → Prop
-  | .done v, .done w => v = w
-  | .stuck why, .stuck why' =>
-    (why = "divByZero" ∧ why' = .divByZero) ∨ (why = "overflow" ∧ why' = .overflow)
-  | _, _ => False
-
-/-- T4 (C05 c): the named machine on `p` and the positional machine on `linearize p` have the
-same behaviour: every finished run of one is matched (same trace, same outcome) by a run of the
-other. STATED, not proved. -/
+/-- T4 (C05 c) — statement: the named machine on `p` and the positional machine on
+`linearize p` have the same behaviour: every finished run of one (result `done v`, or stuck with
+division by zero / overflow) is matched by a run of the other with the same trace and the same
+outcome.  (`Sim.finishedNamed`, `Sim.finishedPos`, `Sim.sameOutcome` are defined in
+Scc/AxCut/SemEq.lean.)  Side conditions: the input carries no closure-environment annotations
+(`noEnvAnnProg`: they are written by the linearizer; true of every S4 dump) and the entry point
+takes integers. -/
 def C05_T4_linearize_sem : Prop :=
-  ∀ (p p' : Prog) (args : List (BitVec 64)), WfNonLinear p → linearizeProg p = .ok p' →
-    (∀ n, finishedNamed (Named.run p args n).res →
+  ∀ (p p' : Prog) (args : List (BitVec 64)), WfNonLinear p → noEnvAnnProg p = true →
+    (∀ d, p.defs.head? = some d → ∀ b ∈ d.ctx, b.chi = .ext ∧ b.ty = .i64) →
+    linearizeProg p = .ok p' →
+    (∀ n, Sim.finishedNamed (Named.run p args n).res →
       ∃ m, (Pos.run p' args m).out = (Named.run p args n).out ∧
-        sameOutcome (Named.run p args n).res (Pos.run p' args m).res) ∧
-    (∀ m, finishedPos (Pos.run p' args m).res →
+        Sim.sameOutcome (Named.run p args n).res (Pos.run p' args m).res) ∧
+    (∀ m, Sim.finishedPos (Pos.run p' args m).res →
       ∃ n, (Pos.run p' args m).out = (Named.run p args n).out ∧
-        sameOutcome (Named.run p args n).res (Pos.run p' args m).res)
+        Sim.sameOutcome (Named.run p args n).res (Pos.run p' args m).res)
 
-/-- T5: the positional machine never violates a shape on a `LinTyped` program whose entry takes
-integers: the only ways to stop are `done`, division by zero, overflow (or running out of fuel).
-STATED, not proved. -/
+/-- T4 (proved): `linearize` output is a linearization of the input in the sense of the
+declarative relation `LinRel` (Scc/AxCut/LinRel.lean, proved in LinRelLin.lean), and `LinRel`
+implies a lockstep simulation between the two machines (LinRelSim.lean). -/
+theorem C05_T4 : C05_T4_linearize_sem :=
+  fun p p' args hwf hne hmain hlin =>
+    Sim.linRelProg_sem p p' args (linearizeProg_linRel p p' hwf hne hlin) hmain
+
+/-- T5 — statement: the positional machine never violates a shape on a `LinTyped` program whose
+entry takes integers: the only ways to stop are `done`, division by zero, overflow (or running out
+of fuel).  `Pos.ResSafe r` is: `r = done _ ∨ r = outOfFuel ∨ r = stuck divByZero ∨ r = stuck overflow`
+(no `shape`, `unbound`, `sort`, `lookup`). -/
 def C05_T5_LinTyped_safe : Prop :=
   ∀ (p : Prog) (args : List (BitVec 64)) (fuel : Nat), LinTypedProg p →
-    (∀ d, p.defs.head? = some d → d.ctx.length = args.length ∧ ∀ b ∈ d.ctx, b.chi = .ext ∧ b.ty = .i64) →
+    (∀ d, p.defs.head? = some d →
+      d.ctx.length = args.length ∧ ∀ b ∈ d.ctx, b.chi = .ext ∧ b.ty = .i64) →
     p.defs ≠ [] →
-    match (Pos.run p args fuel).res with
-    | .done _ => True
-    | .outOfFuel => True
-    | .stuck why => why = .divByZero ∨ why = .overflow
+    Pos.ResSafe (Pos.run p args fuel).res
+
+/-- T5 (proved): type safety of the positional machine w.r.t. `LinTyped` — what the backends
+assume about their input. -/
+theorem C05_T5 : C05_T5_LinTyped_safe :=
+  fun _ args fuel hP hentry hne => Pos.run_safe hP args fuel hentry hne
+
+/-- T3 + T5: the OUTPUT OF THE LINEARIZER runs on the positional machine without ever violating
+a shape. -/
+theorem C05_linearize_safe (p p' : Prog) (args : List (BitVec 64)) (fuel : Nat)
+    (hwf : WfNonLinear p) (hlin : linearizeProg p = .ok p')
+    (hentry : ∀ d, p'.defs.head? = some d →
+      d.ctx.length = args.length ∧ ∀ b ∈ d.ctx, b.chi = .ext ∧ b.ty = .i64)
+    (hne : p'.defs ≠ []) : Pos.ResSafe (Pos.run p' args fuel).res := by
+  obtain ⟨p'', e, hty, _⟩ := C05_linearize_LinTyped p hwf
+  rw [hlin] at e
+  injection e with e
+  subst e
+  exact C05_T5 p' args fuel hty hentry hne
 
 /-- the full property -/
 def C05_statement : Prop :=
   C05_linearize_LinTyped_statement ∧ C05_T4_linearize_sem ∧ C05_T5_LinTyped_safe
 
-/-- proved part of C05: (a) and (b); missing: T4 (same behaviour) and T5 (progress), see above -/
-theorem C05_partial : C05_linearize_LinTyped_statement := C05_linearize_LinTyped
+/-- C05 in full: (a), (b) ordered-linear typing of the output, (c) same behaviour, and progress -/
+theorem C05_full : C05_statement := ⟨C05_linearize_LinTyped, C05_T4, C05_T5⟩
 
 /-! ## non-vacuity -/
 
@@ -191,6 +212,40 @@ example : ∃ p', linearizeProg exProg = .ok p' ∧ (linTypedCheck p').toBool = 
     p'.maxId = 14 := by
   refine ⟨_, rfl, ?_, ?_⟩ <;> decide
 
+/-- the side conditions of T4 hold for the example -/
+example : noEnvAnnProg exProg = true ∧
+    (∀ d, exProg.defs.head? = some d → ∀ b ∈ d.ctx, b.chi = .ext ∧ b.ty = .i64) := by
+  refine ⟨by decide, ?_⟩
+  intro d hd
+  simp only [exProg, List.head?_cons, Option.some.injEq] at hd
+  subst hd
+  decide
+
+/-- … and the named machine on the example finishes (so T4 is not vacuous): `main(5)` prints 5
+and returns 10, exactly as the positional machine on the linearized program (next example) -/
+example : (Named.run exProg [5] 100).out = [(true, 5)] ∧
+    Sim.finishedNamed (Named.run exProg [5] 100).res ∧
+    Sim.sameOutcome (Named.run exProg [5] 100).res (.done 10) := by
+  refine ⟨by decide, ?_, ?_⟩
+  · have : (Named.run exProg [5] 100).res = .done 10 := by rfl
+    rw [this]; trivial
+  · have : (Named.run exProg [5] 100).res = .done 10 := by rfl
+    rw [this]; rfl
+
+/-- the hypotheses of T5 / `C05_linearize_safe` are satisfiable, and the run is not trivial:
+`main(5)` builds a list, creates a closure capturing `a`, switches, calls `f`, which prints 5 and
+invokes the closure: result 5 + 5 -/
+example : ∃ p', linearizeProg exProg = .ok p' ∧
+    (∀ d, p'.defs.head? = some d →
+      d.ctx.length = [(5 : BitVec 64)].length ∧ ∀ b ∈ d.ctx, b.chi = .ext ∧ b.ty = .i64) ∧
+    Pos.run p' [5] 100 = ⟨[(true, 5)], .done 10⟩ := by
+  refine ⟨_, rfl, ?_, ?_⟩
+  · intro d hd
+    simp only [List.head?_cons, Option.some.injEq] at hd
+    subst hd
+    decide
+  · decide
+
 /-- T1 hypotheses are satisfiable; the example shows a reordering by `swap_remove` -/
 example : filterBySet [bx "a" 1, bx "b" 2, bx "c" 3, bx "d" 4] [1, 4] = [bx "a" 1, bx "d" 4] := by
   decide
@@ -202,12 +257,16 @@ example : (freshen [bx "a" 1, bx "b" 2, bx "a" 1] [2] 7).1 = [bx "a" 1, bx "b" 8
 #print axioms C05_T1_filterBySet_nodup
 #print axioms C05_T1_filterBySet_ids
 #print axioms C05_T1_filterBySet_keeps
+#print axioms C05_T1_filterBySet_positions
 #print axioms C05_T1_filterWhile_fuel
 #print axioms C05_T1_freshen
 #print axioms C05_T2_freeVars_in_scope
 #print axioms C05_T2_freeVars_sound
 #print axioms C05_linearize_LinTyped
 #print axioms C05_linTypedCheck_sound
-#print axioms C05_partial
+#print axioms C05_T5
+#print axioms C05_linearize_safe
+#print axioms C05_T4
+#print axioms C05_full
 
 end Scc.Props.C05
